@@ -468,7 +468,7 @@ End ConcProofs.
 Lemma go_sidx_lt n k : 0 < n -> go_sidx n k < n.
 Proof.
   intros Hn. unfold go_sidx.
-  assert (N.modulo (N.shiftr (wrap64 (k * seg_mult)) seg_shift) (N.of_nat n) < N.of_nat n)%N by (apply N.mod_lt; lia).
+  assert (N.modulo (N.shiftr (w64 (k * seg_mult)) seg_shift) (N.of_nat n) < N.of_nat n)%N by (apply N.mod_lt; lia).
   lia.
 Qed.
 
